@@ -1,7 +1,9 @@
 """C13 - peer messages round-trip through the wire format and decoding is total (structural part: table agreement, TLV rules, varint boundaries)."""
+import re
 from engine import *
 import ordimpls
 import provenance
+import parsepos
 import guards
 import tlv, tlvloop
 
@@ -458,3 +460,4 @@ RULES = [
 ]
 RULES.append(('13.P', 'panic sites: no reviewed function that parses / handles untrusted input gained an unwrap / expect / explicit panic / bounds-checked index / length-checked copy / division (rules/provenance.py; panic freedom itself is not decided)', lambda F: provenance.panics_for_property(F, 'C13', '13.P')))
 RULES.append(('13.G', 'guard census: no reviewed call of a workspace function and no reviewed mutation of a stored collection gained a controlling branch condition (an added `&& cond`, early return / continue, more specific match arm in front of an act); counts per call site, name free (rules/guards.py)', lambda F: guards.for_property(F, 'C13', '13.G')))
+RULES.append(('13.I', 'parse-position independence: in every function reading from a reader, no stream read is skipped under a condition computed from local state (self, another argument) while parsing goes on - the bytes a message decoder consumes depend on the message alone (rules/parsepos.py)', lambda F: parsepos.rule(F, '13.I', lambda n, r: re.search(r'ln/msgs\\.rs$|ln/wire\\.rs$|onion_message/|util/ser\\.rs$|ln/onion_utils\\.rs$|blinded_path/', r['file']) is not None and 'ser_macros' not in r['file'], 7, 30)))
